@@ -1235,7 +1235,7 @@ func Run(r *common.Run) error {
 		}
 		toks := noForeign(cfg, call{entry: "send", toks: genElement(rnd, 0, true, bigH)}).toks
 		next := noForeign(cfg, call{entry: "send", toks: genElement(rnd, 0, true, bigN)}).toks
-		cl, ok := behindCall(pickS(rnd, []string{"send", "sendel", "enc", "encel", "tw"}), next)
+		cl, ok := behindCall(pickS(rnd, []string{"send", "sendel", "enc", "encel", "tw", "reply"}), next)
 		if !ok || len(toks) < 3 {
 			continue
 		}
